@@ -117,7 +117,7 @@ func TestVerifC03(t *testing.T) {
 	ca := verifSigner("ca_rsa2048")
 	n := 90
 	if verifThorough() {
-		n = 1500
+		n = 4000
 	}
 	durs := c03Durations(rng, n)
 	now := time.Now()
